@@ -888,6 +888,55 @@ fn run_prebuilt_universes(rep: &Report, universes: &[Vec<u32>], only: Option<&st
             flush_calls();
             rep.distinct_hashes(&hs);
         });
+        // long-lived instances: ONE simplifier per (cache kind, call order) answers every term of the prebuilt
+        // context in turn (hundreds of calls on one cache; orders: creation order, reverse, stride 7, and creation
+        // order with every term asked twice). Whatever the instance has been asked before, the answer for a term
+        // is the one a fresh simplifier gives in a fresh context (compared structurally).
+        if only.is_none() {
+            let fresh: Vec<Option<String>> = terms
+                .par_iter()
+                .map(|t| {
+                    let mut alone = Context::default();
+                    let e = t.build(&mut alone);
+                    catch(|| Simp::new(Kind::Sparse).simplify(&mut alone, e)).ok().map(|r| structure(&alone, r))
+                })
+                .collect();
+            let n = terms.len();
+            let orders: Vec<(&str, Vec<usize>)> = vec![
+                ("creation-order", (0..n).collect()),
+                ("reverse-order", (0..n).rev().collect()),
+                ("stride-7", (0..7).flat_map(|o| (o..n).step_by(7)).collect()),
+                ("each-twice", (0..n).flat_map(|i| [i, i]).collect()),
+            ];
+            let jobs: Vec<(&str, &Vec<usize>, Kind, bool)> = orders.iter().flat_map(|(l, o)| [Kind::Sparse, Kind::Dense].into_iter().flat_map(move |k| [false, true].into_iter().map(move |rev| (*l, o, k, rev)))).collect();
+            jobs.par_iter().for_each(|(label, order, kind, rev)| {
+                let (base, refs) = if *rev { (&cr, &rr) } else { (&cf, &rf) };
+                let mut ctx = base.clone();
+                let mut s = Simp::new(*kind);
+                for (pos, &i) in order.iter().enumerate() {
+                    let Some(want) = &fresh[i] else { continue };
+                    watch_set(|| format!("long-lived {kind:?} instance, call {pos}: {}", terms[i]));
+                    let Ok(r) = catch(|| s.simplify(&mut ctx, refs[i])) else { break };
+                    rep.add("long_lived_instance_calls", 1);
+                    rep.add("transitions", 1);
+                    let got = structure(&ctx, r);
+                    if got != *want {
+                        rep.violation(Violation {
+                            sig: format!("C13|long-lived-instance|{}|{}|{kind:?}", sig_shape(&terms[i]), wclass(operand_width(&terms[i]))),
+                            what: format!(
+                                "a {kind:?}-cache simplifier that has answered {pos} other terms of the universe {u:?} ({label}, context built {}) simplifies {} to `{got}`; a fresh simplifier gives `{want}`",
+                                if *rev { "younger-first" } else { "older-first" },
+                                terms[i]
+                            ),
+                            case: json!({"kind": "prebuilt", "term": terms[i].to_string(), "universe": u, "reverse": rev, "cache": format!("{kind:?}")}),
+                            order: (1u64 << 59) + pos as u64,
+                        });
+                        break;
+                    }
+                }
+                flush_calls();
+            });
+        }
     }
 }
 
